@@ -23,6 +23,7 @@ var c08Corpus = []string{
 	`"a\\"`, `"\\"`, `'a\\'`, `x := "a\\"; x`, "\"a\\u005c\"",
 	`r"{{a}}"`, `r'x'`, `"{{a}}"`, `x := r"a\n"`,
 	"/* a */ /* b */ x", "if a { /* c */ b }", "a # c", "a /* c */", "/* a\nb */ x", "x\n\n\ny",
+	"7 * ((3 % 2) / 2)", "7 * ((3 // 2) * 2)", "7 * ((3 * 2) / 2)", "a * ((a % a) / a)", "+(not t * ((-1) / (not l)))",
 	"(return a) + b", "a + (return b) + c", "not (return b) and c", "func g() {\nx := (return 1) + 2\n}\ng()", "return a + b",
 	"-suppresses a", "not priority 1", "a + kindmatch b", "x := \"\u0378\"", "\"\ufffe\"", "\"\U000e0001\"",
 	"x := a([1,2,3,4,5])[0]", "x := (let a) + 1", "sink s kindmatch [\"a\"], priority (1 + 2) { a }", "try { a }\n\nexcept { b }",
@@ -129,6 +130,23 @@ func c08Gen(g *Gen) {
 		}
 		for _, e := range trees(3) {
 			emit("nest3.all", e, true)
+		}
+	}
+
+	// ---- a product in front of a bracketed chain of multiplicative operators: every combination of * / // % at
+	// every position of the left spine, with numbers whose values tell the associations apart
+	mulOps := []string{"*", "/", "//", "%"}
+	for _, o1 := range mulOps {
+		for _, o2 := range mulOps {
+			emit("mulchain", fmt.Sprintf("7 * (3 %s 2)", o1), true)
+			emit("mulchain", fmt.Sprintf("7 * ((9 %s 5) %s 2)", o1, o2), true)
+			emit("mulchain", fmt.Sprintf("7 * (9 %s (5 %s 2))", o1, o2), true)
+			emit("mulchain", fmt.Sprintf("7 %s (9 %s 5)", o1, o2), true)
+			for _, o3 := range mulOps {
+				emit("mulchain", fmt.Sprintf("7 * (((11 %s 5) %s 3) %s 2)", o1, o2, o3), true)
+				emit("mulchain", fmt.Sprintf("x := 7 * ((-11 %s (5 + 1)) %s 3) %s 2", o1, o2, o3), true)
+				emit("mulchain", fmt.Sprintf("7 * ((a %s b) %s (c %s 5))", o1, o2, o3), true)
+			}
 		}
 	}
 
